@@ -11,6 +11,8 @@ type ProbeConfig struct {
 	Config   string   `json:"config"`   // gqlgen config file relative to Dest
 	Tier     string   `json:"tier"`     // "" = always, "thorough" = thorough only
 	RepoDir  string   `json:"repo_dir"` // alternatively: an existing directory of the repository to regenerate
+	Stub     string   `json:"stub"`     // -stub argument
+	Remove   []string `json:"remove"`   // files removed before generation (as the go:generate lines do)
 	Patterns []string `json:"patterns"`
 }
 
@@ -18,6 +20,7 @@ type ProbeResult struct {
 	Name     string   `json:"name"`
 	Patterns []string `json:"patterns"`
 	GenMs    int64    `json:"gen_ms"`
+	Families map[string]int `json:"family_instances,omitempty"`
 	Files    []string `json:"files,omitempty"`
 }
 
